@@ -124,6 +124,7 @@ type Table struct {
 	Err   string
 	valOf func(ssa.Value) TT
 	include func(*ssa.BasicBlock) bool
+	root    *ssa.BasicBlock
 }
 
 // Extract builds the table for fn. Back edges (edges to a dominator) are cut:
@@ -157,7 +158,21 @@ func NearEntry(fn *ssa.Function, depth int) func(*ssa.BasicBlock) bool {
 // include (nil = all): other blocks are neither searched for atoms nor
 // evaluated, so a long function can be analysed around the blocks of interest.
 func ExtractTableRegion(fn *ssa.Function, include func(*ssa.BasicBlock) bool) *Table {
-	t := &Table{Fn: fn, val: map[ssa.Value]TT{}, cond: map[*ssa.BasicBlock]TT{}, back: map[[2]*ssa.BasicBlock]bool{}, include: include}
+	return ExtractTableFrom(fn, nil, include)
+}
+
+// DominatedBy builds a region predicate: blocks dominated by root.
+func DominatedBy(root *ssa.BasicBlock) func(*ssa.BasicBlock) bool {
+	return func(b *ssa.BasicBlock) bool { return root.Dominates(b) }
+}
+
+// ExtractTableFrom starts the analysis at block root (nil = entry): conditions
+// are relative to reaching root.
+func ExtractTableFrom(fn *ssa.Function, root *ssa.BasicBlock, include func(*ssa.BasicBlock) bool) *Table {
+	t := &Table{Fn: fn, val: map[ssa.Value]TT{}, cond: map[*ssa.BasicBlock]TT{}, back: map[[2]*ssa.BasicBlock]bool{}, include: include, root: root}
+	if root == nil && fn != nil && len(fn.Blocks) > 0 {
+		t.root = fn.Blocks[0]
+	}
 	if fn == nil || len(fn.Blocks) == 0 {
 		t.Err = "no body"
 		return t
@@ -202,6 +217,9 @@ func ExtractTableRegion(fn *ssa.Function, include func(*ssa.BasicBlock) bool) *T
 				if t.back[[2]*ssa.BasicBlock{x.Block().Preds[i], x.Block()}] {
 					loop = true
 				}
+			}
+			if x.Block() == t.root && t.root != fn.Blocks[0] {
+				loop = true // value enters the region from outside: opaque
 			}
 			if !loop {
 				for _, e := range x.Edges {
@@ -288,6 +306,9 @@ func ExtractTableRegion(fn *ssa.Function, include func(*ssa.BasicBlock) bool) *T
 					loop = true
 				}
 			}
+			if x.Block() == t.root && t.root != fn.Blocks[0] {
+				loop = true
+			}
 			if loop {
 				r = t.atomOf(v, keyIdx, stored)
 				break
@@ -304,7 +325,7 @@ func ExtractTableRegion(fn *ssa.Function, include func(*ssa.BasicBlock) bool) *T
 		return r
 	}
 	for _, b := range order {
-		if b == fn.Blocks[0] {
+		if b == t.root {
 			t.cond[b] = newTT(t.n, true)
 		} else {
 			c := newTT(t.n, false)
@@ -382,7 +403,7 @@ func (t *Table) topo() []*ssa.BasicBlock {
 		}
 		order = append(order, b)
 	}
-	dfs(t.Fn.Blocks[0])
+	dfs(t.root)
 	for i, j := 0, len(order)-1; i < j; i, j = i+1, j-1 {
 		order[i], order[j] = order[j], order[i]
 	}
